@@ -762,24 +762,37 @@ class Duration:
             )
         return NotImplemented
 
+    def _get_order_keys(self, other):
+        """Return the quantities by which self and other are ordered."""
+        if self.is_exact() and other.is_exact():
+            # N.B. The quantity that decides their equality
+            return (self._get_non_nominal_seconds(),
+                    other._get_non_nominal_seconds())
+        # N.B. A (days, seconds) pair keeps more precision than one float
+        return self.get_days_and_seconds(), other.get_days_and_seconds()
+
     def __lt__(self, other: "Duration") -> bool:
         if isinstance(other, Duration):
-            return self.get_seconds() < other.get_seconds()
+            mine, theirs = self._get_order_keys(other)
+            return mine < theirs
         return NotImplemented
 
     def __le__(self, other: "Duration") -> bool:
         if isinstance(other, Duration):
-            return self.get_seconds() <= other.get_seconds()
+            mine, theirs = self._get_order_keys(other)
+            return mine <= theirs
         return NotImplemented
 
     def __gt__(self, other: "Duration") -> bool:
         if isinstance(other, Duration):
-            return self.get_seconds() > other.get_seconds()
+            mine, theirs = self._get_order_keys(other)
+            return mine > theirs
         return NotImplemented
 
     def __ge__(self, other: "Duration") -> bool:
         if isinstance(other, Duration):
-            return self.get_seconds() >= other.get_seconds()
+            mine, theirs = self._get_order_keys(other)
+            return mine >= theirs
         return NotImplemented
 
     def __bool__(self):
